@@ -233,6 +233,9 @@ var violations = []violation{
 		t.Out = append(t.Out, coin.TransactionOutput{Coins: ^uint64(0) - s, Hours: 3})
 	}},
 	{"length", func(t *coin.Transaction, r *Rng) { t.Length += uint32(r.Range(1, 3))*2 - 3 }},
+	{"lengthEdge", func(t *coin.Transaction, r *Rng) { // zero / "unset" / extreme values of the length field
+		t.Length = []uint32{0, 1, t.Length << 8, 1 << 31, 1<<32 - 1, t.Length + 1<<16}[r.Intn(6)]
+	}},
 	{"dupOutput", func(t *coin.Transaction, r *Rng) {
 		if len(t.Out) > 0 {
 			t.Out = append(t.Out, t.Out[r.Intn(len(t.Out))])
